@@ -1465,7 +1465,9 @@ def concat_collocations(collocations):
     for obj in collocations:
         for group, data in get_xarray_groups(obj).items():
             if group == "Collocations":
-                # Correct the indices:
+                # Correct the indices (on a copy, the given datasets must
+                # not be changed):
+                data = data.copy(deep=True)
                 data["Collocations/pairs"][0, :] += primary_size
                 data["Collocations/pairs"][1, :] += secondary_size
                 data = data.drop_vars("Collocations/group")
